@@ -28,6 +28,10 @@ def alphabet(quick):
                         continue
                     ops.append(("register", lab, oid, force, weak))
         ops.append(("unregister_obj", lab))
+    # an object that cannot carry the registration attributes: the registration fails and must leave no trace
+    for oid in (("a", None) if quick else ("a", "b", None)):
+        for weak in (False, True):
+            ops.append(("register", "S", oid, False, weak))
     ops.append(("unregister_obj", "D"))       # the daemon's own object, handed to unregister as an object
     for oid in ("a", "b", "gen1", DAEMON, "zz"):
         ops.append(("unregister_id", oid))
@@ -62,6 +66,8 @@ class Model:
         k = op[0]
         if k == "register":
             _, lab, oid, force, weak = op
+            if lab == "S":
+                return ("exc-any", None)      # refused one way or another (which exception is not the point), nothing changes
             if not self.held[lab]:
                 return ("skip", None)
             if lab == "K" and weak:
@@ -145,8 +151,8 @@ class World:
         ns = {"__eq__": (lambda a, b: True), "__ne__": (lambda a, b: False), "__hash__": (lambda a: 7)} if variant == "eq" else {}
         self.T = type("RegT", (targets.RegT,), ns)
         self.K = type("RegK", (targets.RegK,), {})
-        self.pool = {"o1": self.T("o1"), "o2": self.T("o2"), "K": self.K}
-        self.refs = {l: weakref.ref(o) for l, o in self.pool.items() if l != "K"}
+        self.pool = {"o1": self.T("o1"), "o2": self.T("o2"), "K": self.K, "S": targets.RegSlots("S")}
+        self.refs = {l: weakref.ref(o) for l, o in self.pool.items() if l not in ("K", "S")}
         self.host = targets.RegHost()
         targets.RegHost.pool = self.pool
         self.d.register(self.host, "host")
@@ -225,6 +231,30 @@ class World:
 
     def norm_id(self, i):
         return self.genmap.get(i, i)
+
+    def touch(self):
+        """the 'return-object / uriFor / proxyFor' steps of a history: every pool object is returned from a remote method once and asked for
+        its uri and proxy; the answers are not judged here (they are in the state that is observed), but whatever the daemon remembers
+        from doing so is now part of the history"""
+        hostp = self.client.Proxy("PYRO:host@h:1")
+        try:
+            for lab in ("o1", "o2"):
+                obj = self.pool.get(lab)
+                if obj is None:
+                    continue
+                try:
+                    r = hostp._pyroInvoke("give", (lab,), {})
+                    if isinstance(r, self.client.Proxy):
+                        r._pyroRelease()
+                except Exception:
+                    pass
+                for f in (self.d.uriFor, self.d.proxyFor):
+                    try:
+                        f(obj)
+                    except Exception:
+                        pass
+        finally:
+            hostp._pyroRelease()
 
     def key(self):
         objs = []
@@ -407,6 +437,10 @@ def expand_task(unit):
         for op in h:
             want = model.apply(op)
             got = world.apply(op, errors)
+            if want[0] == "exc-any" and got[0] == "exc":
+                want = got
+            if variant == "touch":
+                world.touch()
             if want[0] == "lenient-register":
                 lab_, oid_, weak_ = want[1]
                 if got[0] == "ok":
@@ -427,6 +461,8 @@ def expand_task(unit):
         finally:
             world.close()
         gc.collect()
+        if variant == "touch":
+            return st, succ      # (observation only: the successors are generated by the other variants)
         if model.double and model.double_age >= 1:
             # states of an object held under several ids are observed, not expanded further
             st.outcomes["double-id-state-observed-only"] = st.outcomes.get("double-id-state-observed-only", 0) + 1
@@ -445,6 +481,11 @@ def expand_task(unit):
                     got = want     # unregistering something that is not registered may also be a silent no-op (as it is for unknown ids)
                 if want[0] == "lenient":
                     want = got     # explored, outcome not judged
+                if want[0] == "exc-any":
+                    if got[0] != "exc":
+                        V("operation-not-refused|register|unattributable-object", "an object that cannot carry the registration attributes was registered: %r" % (got,), h2)
+                        continue
+                    want = got
                 if want[0] == "lenient-register":
                     lab_, oid_, weak_ = want[1]
                     if got[0] == "ok":
@@ -497,7 +538,7 @@ def run(ctx):
             # serializer only matters for the auto-proxy leg: rotate deterministically, all three at the shallow levels
             # the 'eq' variant (pool objects that compare equal to everything) is the stronger adversary: both at the shallow levels, 'eq' below
             for s in (sers if level <= 1 else [sers[i % 3]]):
-                for variant in (("id", "eq") if level <= 1 else ("eq",)):
+                for variant in (("id", "eq", "touch") if level <= 1 else ("eq", "touch")):
                     units.append((ctx.quick, s, [tuple(o) for o in h], variant))
         nxt = []
         level_succ = []
@@ -524,7 +565,9 @@ def run(ctx):
              "(registry contents, per-object _pyroId/_pyroDaemon attributes, liveness); in every state: registered() vs model, a call to every id (whose log records it), "
              "uriFor, and returning each pool object from a remote method (proxy reaching that very object vs by-value like a never-registered instance) under serpent/"
              "json/msgpack, also through a client speaking another serializer than the daemon's; pool classes are created per replay (type hooks are process-global) and, below "
-             "depth 2, their instances compare equal to everything (identity, not equality, must decide); distinct = distinct states" % (len(alphabet(ctx.quick)), depth + 1),
+             "depth 2, their instances compare equal to everything (identity, not equality, must decide); every history is also replayed with each pool object "
+             "returned from a remote method and asked for its uri/proxy after every step (return-object/uriFor/proxyFor as history steps); registrations of an object "
+             "that cannot carry attributes must fail without trace; distinct = distinct states" % (len(alphabet(ctx.quick)), depth + 1),
         nontrivial=len(seen), extra={"state_cap_hit": capped})
     cov["exhaustive"] = not capped
     return {"violations": total.violations, "coverage": cov,
